@@ -60,6 +60,13 @@ def _declared():
         (measuring_body, ("k",), ()),
         (cirq.measure_single_paulistring(cirq.X(a) * cirq.Z(b), key="m"), ("m",), ()),
     ]
+    if hasattr(cirq, "If"):
+        table += [
+            (cirq.If("k", cirq.X(c)), (), ("k",)),
+            (cirq.If("k", gated_body), (), ("k", "m")),                                  # the body reads a further key of its own
+            (cirq.If("m", cirq.Y(a).with_classical_controls("k").with_tags("t")), (), ("k", "m")),   # a tagged controlled operation as the body
+            (cirq.If("m", cirq.X(a), cirq.Z(b).with_classical_controls("k")), (), ("k", "m")),       # a multi-operation body with a nested control
+        ]
     return {op: (frozenset(cirq.MeasurementKey(k) for k in mk), frozenset(cirq.MeasurementKey(k) for k in ck)) for op, mk, ck in table}
 
 
